@@ -422,7 +422,7 @@ pub fn run_big_collections(ctx: &mut Ctx) {
 /// Extractor paths over member names of every shape the path syntax admits (anything but
 /// whitespace, controls and `. , = ( ) " [ ] { } #`): non-ASCII names, names with `- _ : @ / ^ & ' +`,
 /// digits; nested, through list indices, from inside a lambda with `^`.
-pub const PATH_KEYS: &[&str] = &["a", "ab", "A", "k1", "1", "-", "a-b", "a_b", "x:y", "p@q", "a/b", "a^b", "a&b", "a'b", "a+b", "\u{e9}", "cl\u{e9}", "\u{fc}ber", "\u{65e5}\u{672c}", "\u{8a9e}", "\u{43a}\u{43b}\u{44e}\u{447}", "\u{5d0}", "\u{ffff}", "a\u{e9}b", "\u{e9}\u{e9}"];
+pub const PATH_KEYS: &[&str] = &["a", "ab", "A", "k1", "1", "0", "2", "00", "10", "-", "a-b", "a_b", "x:y", "p@q", "a/b", "a^b", "a&b", "a'b", "a+b", "\u{e9}", "cl\u{e9}", "\u{fc}ber", "\u{65e5}\u{672c}", "\u{8a9e}", "\u{43a}\u{43b}\u{44e}\u{447}", "\u{5d0}", "\u{ffff}", "a\u{e9}b", "\u{e9}\u{e9}"];
 
 pub struct C04Paths;
 impl Check for C04Paths {
@@ -443,7 +443,7 @@ impl Check for C04Paths {
 
 pub fn run_paths(ctx: &mut Ctx) {
     let n = PATH_KEYS.len() as u64;
-    const SHAPES: u64 = 8;
+    const SHAPES: u64 = 11;
     let total = n * n * SHAPES;
     let space = format!("all {}^2 ordered pairs of member names x {} path shapes", n, SHAPES);
     run_enum(ctx, "C04.paths", total, &space, |idx| {
@@ -464,12 +464,17 @@ pub fn run_paths(ctx: &mut Ctx) {
             3 => Expr::Path { up: 0, steps: vec![key(list), Step::Idx(0)] },
             4 => Expr::Path { up: 0, steps: vec![key(k1), key("missing")] },
             5 => Expr::Path { up: 0, steps: vec![key("missing"), key(k1)] },
+            // a member name applied to a list and an index applied to an object are nothing,
+            // also when the name is all digits and the list has that position
+            8 => Expr::Path { up: 0, steps: vec![key(list), key(k1)] },
+            9 => Expr::Path { up: 0, steps: vec![key(k1), Step::Idx(0)] },
+            10 => Expr::call("map", vec![Expr::Lit(format!("[[{{{}:1}},[3,4,5],6],[[7,8,9],[10,11,12],[13,14,15]]]", js(k2))), Expr::Path { up: 0, steps: vec![key(k1), key(k2)] }]),
             6 => Expr::call("map", vec![Expr::Path { up: 0, steps: vec![key(list)] }, Expr::call("?", vec![Expr::call("number?", vec![Expr::dot()]), Expr::Path { up: 1, steps: vec![key(k1), key(k2)] }, Expr::Path { up: 0, steps: vec![key(k1)] }])]),
             _ => Expr::call("get", vec![Expr::Path { up: 0, steps: vec![key(k1)] }, Expr::Lit(js(k2))]),
         };
         let case = Case04 { e, vars: vec![], macros: vec![], priors: vec![], inputs: vec![input], spell: Spell { alias: false, sep: (idx % 3) as u8, sugar: false, pad: false, seed: idx } };
         let res = match C04Eval.check(&case) {
-            CaseResult::Pass(i) => CaseResult::Pass(i.class("extractor_path").class_if(!k1.is_ascii() || !k2.is_ascii(), "non_ascii_member_name")),
+            CaseResult::Pass(i) => CaseResult::Pass(i.class("extractor_path").class_if(!k1.is_ascii() || !k2.is_ascii(), "non_ascii_member_name").class_if(shape >= 8 && k1.bytes().all(|b| b.is_ascii_digit()), "digit_name_on_a_list_or_index_on_an_object")),
             o => o,
         };
         (Box::new(move || serde_json::to_value(&case).unwrap()), res)
